@@ -168,6 +168,8 @@ func main() {
 	case "record":
 		n, _ := strconv.Atoi(os.Args[3])
 		record(os.Args[2], n)
+	case "reexec": // reexec <events-in> <events-out>
+		reexec(os.Args[2], os.Args[3])
 	default:
 		hx.Die("unknown mode %s", os.Args[1])
 	}
@@ -434,5 +436,48 @@ func record(out string, n int) {
 	}
 	w.Close()
 	sum.Nontrivial = len(seen)
+	sum.Print()
+}
+
+func reexec(in, out string) {
+	var sum hx.Summary
+	w := hx.NewWriter(out)
+	hx.ReadNDJSON(in, func(i int, e *event) {
+		switch e.Ev {
+		case "parse":
+			text := fileText(e.Lines, i, true)
+			c, err := dns.ClientConfigFromReader(strings.NewReader(text))
+			if err != nil || c == nil {
+				sum.Mis("clientconfig/parse:error", fmt.Sprintf("ClientConfigFromReader(%q): %v", clip(text), err), e)
+				return
+			}
+			o := observe(c)
+			e.Cfg = &o
+		case "names":
+			var search []string
+			for _, t := range e.Search {
+				search = append(search, t.text())
+			}
+			c := &dns.ClientConfig{Ndots: e.Ndots, Search: search}
+			e.Got = c.NameList(nameText(e.Labels, e.Fq))
+		default:
+			hx.Die("unknown event %q", e.Ev)
+		}
+		if e.Lines == nil {
+			e.Lines = []line{}
+		}
+		if e.Labels == nil {
+			e.Labels = []string{}
+		}
+		if e.Search == nil {
+			e.Search = []tok{}
+		}
+		if e.Got == nil {
+			e.Got = []string{}
+		}
+		w.Emit(e)
+		sum.Evaluations++
+	})
+	w.Close()
 	sum.Print()
 }
